@@ -19,12 +19,21 @@
 (*                    joint queries the angle at the new pose              *)
 (*   DeepCopy         system.deepcopy(); work continues on the copy        *)
 (*   Restart          set_new_initial_state(q, u, t) at the current state  *)
-(*                    (re-assembles)                                       *)
+(*                    (re-assembles); a new solve leg starts here          *)
+(*   PostProcess      the end of a solve whose solver evaluates the system *)
+(*                    a posteriori along the stored rows of the leg, FROM  *)
+(*                    ITS FIRST ROW (ScipyIVP computes accelerations and   *)
+(*                    multipliers this way): the force law on the joint    *)
+(*                    queries the angle at every row again                 *)
 (*                                                                         *)
 (* Impl = "intended": re-assembly keeps the captured data and the angle    *)
 (* tracker.  Impl = "as_found" (pinned tree): re-assembly captures again   *)
 (* from the CURRENT body poses but the ORIGINAL world data, and resets the *)
-(* tracker.                                                                *)
+(* tracker.  Impl = "post_as_found" (ScipyIVP before its fix): the a        *)
+(* posteriori evaluation retraces the rows with the tracker in the state   *)
+(* the integration left it in, and leaves it wherever the retrace ends;    *)
+(* intended: the retrace starts from the tracker state of the first row    *)
+(* and the state reached by the integration is put back afterwards.        *)
 (*                                                                         *)
 (* Mode = "plans" only enumerates split plans of an NSteps-step run (the    *)
 (* sequences of segment lengths, with nested splits), which the harness    *)
@@ -45,9 +54,13 @@ VARIABLES a, b,          \* current pose
           angle,         \* last reported angle minus angle0, in sectors
           copies, restarts, nops,
           segs,          \* plans: segment lengths so far
+          traj,          \* relative rotations b at the rows of the current solve leg, first row = its initial state
+          snap,          \* tracker state that belongs to the first row of the leg
+          rows,          \* angles the joint reported during the last a posteriori evaluation
+          solved,        \* the leg has ended (a new one needs a restart)
           last
 
-vars == <<a, b, defPose, capPose, nfull, prevq, angle, copies, restarts, nops, segs, last>>
+vars == <<a, b, defPose, capPose, nfull, prevq, angle, copies, restarts, nops, segs, traj, snap, rows, solved, last>>
 
 Q == N \div 4
 Quad(m) == IF m < Q THEN 1 ELSE IF m < 2 * Q THEN 2 ELSE IF m < 3 * Q THEN 3 ELSE 4
@@ -59,38 +72,63 @@ Init == /\ a = 0 /\ b = 0
         /\ defPose = [a |-> 0, b |-> 0] /\ capPose = [a |-> 0, b |-> 0]
         /\ nfull = 0 /\ prevq = 1 /\ angle = 0
         /\ copies = 0 /\ restarts = 0 /\ nops = 0 /\ segs = <<>>
+        /\ traj = <<0>> /\ snap = [nfull |-> 0, prevq |-> 1] /\ rows = <<>> /\ solved = FALSE
         /\ last = [op |-> "assemble"]
 
-Track(seen) ==
+TrackFrom(tr, seen) ==
     LET q2 == Quad(seen % N)
-        n2 == IF prevq = 4 /\ q2 = 1 THEN nfull + 1 ELSE IF prevq = 1 /\ q2 = 4 THEN nfull - 1 ELSE nfull
+        n2 == IF tr.prevq = 4 /\ q2 = 1 THEN tr.nfull + 1 ELSE IF tr.prevq = 1 /\ q2 = 4 THEN tr.nfull - 1 ELSE tr.nfull
     IN [nfull |-> n2, prevq |-> q2, angle |-> n2 * N + (seen % N)]
+Track(seen) == TrackFrom([nfull |-> nfull, prevq |-> prevq], seen)
+
+\* the joint evaluated at rows i.. of the leg, one after the other, starting with tracker state tr
+RECURSIVE Retrace(_, _, _)
+Retrace(tr, i, acc) ==
+    IF i > Len(traj) THEN [tr |-> tr, angles |-> acc]
+    ELSE LET t == TrackFrom(tr, traj[i] - capPose.b)
+         IN Retrace([nfull |-> t.nfull, prevq |-> t.prevq], i + 1, Append(acc, t.angle))
 
 Advance(da, db) ==
-    /\ Mode = "mechanism"
+    /\ Mode = "mechanism" /\ ~solved
     /\ a' = a + da /\ b' = b + db
     /\ LET t == Track(b + db - capPose.b) IN nfull' = t.nfull /\ prevq' = t.prevq /\ angle' = t.angle
+    /\ traj' = Append(traj, b + db)
     /\ last' = [op |-> "advance", da |-> da, db |-> db]
     /\ nops' = nops + 1
-    /\ UNCHANGED <<defPose, capPose, copies, restarts, segs>>
+    /\ UNCHANGED <<defPose, capPose, copies, restarts, segs, snap, rows, solved>>
 
 DeepCopy ==
     /\ Mode = "mechanism"
     /\ copies' = copies + 1
     /\ last' = [op |-> "deepcopy"]
     /\ nops' = nops + 1
-    /\ UNCHANGED <<a, b, defPose, capPose, nfull, prevq, angle, restarts, segs>>
+    /\ UNCHANGED <<a, b, defPose, capPose, nfull, prevq, angle, restarts, segs, traj, snap, rows, solved>>
 
 Restart ==
     /\ Mode = "mechanism"
     /\ restarts' = restarts + 1
-    /\ IF Impl = "intended"
+    /\ IF Impl # "as_found"
          THEN UNCHANGED <<capPose, nfull, prevq, angle>>
          ELSE /\ capPose' = [a |-> a, b |-> b]        \* captured again from the current poses ...
               /\ nfull' = 0 /\ prevq' = 1 /\ angle' = 0  \* ... and the tracker starts over
+    /\ traj' = <<b>> /\ snap' = [nfull |-> nfull', prevq |-> prevq'] /\ solved' = FALSE
     /\ last' = [op |-> "restart"]
     /\ nops' = nops + 1
-    /\ UNCHANGED <<a, b, defPose, copies, segs>>
+    /\ UNCHANGED <<a, b, defPose, copies, segs, rows>>
+
+PostProcess ==
+    /\ Mode = "mechanism" /\ ~solved /\ Len(traj) >= 2
+    /\ solved' = TRUE
+    /\ IF Impl = "post_as_found"
+         THEN LET r == Retrace([nfull |-> nfull, prevq |-> prevq], 1, <<>>)
+              IN /\ rows' = r.angles
+                 /\ nfull' = r.tr.nfull /\ prevq' = r.tr.prevq /\ angle' = r.angles[Len(r.angles)]
+         ELSE LET r == Retrace(snap, 1, <<>>)
+              IN /\ rows' = r.angles
+                 /\ UNCHANGED <<nfull, prevq, angle>>      \* the state reached by the integration is put back
+    /\ last' = [op |-> "postprocess"]
+    /\ nops' = nops + 1
+    /\ UNCHANGED <<a, b, defPose, capPose, copies, restarts, segs, traj, snap>>
 
 \* split plans
 Segment(k) ==
@@ -100,7 +138,7 @@ Segment(k) ==
        /\ segs' = Append(segs, [len |-> k, upto |-> done + k, copy |-> (Len(segs) % 2 = 0)])
     /\ last' = [op |-> "segment", k |-> k]
     /\ nops' = nops + 1
-    /\ UNCHANGED <<a, b, defPose, capPose, nfull, prevq, angle, copies, restarts>>
+    /\ UNCHANGED <<a, b, defPose, capPose, nfull, prevq, angle, copies, restarts, traj, snap, rows, solved>>
 
 Steps == {0 - 1, 0, 1}
 
@@ -109,6 +147,7 @@ Next ==
     /\ \/ \E da \in Steps, db \in Steps : Advance(da, db)
        \/ DeepCopy
        \/ Restart
+       \/ PostProcess
        \/ \E k \in 1..NSteps : Segment(k)
 
 Spec == Init /\ [][Next]_vars
@@ -118,6 +157,10 @@ Spec == Init /\ [][Next]_vars
 ModelUnchanged == capPose = defPose
 \* the joint angle keeps its meaning: initial angle plus the accumulated relative rotation
 AngleKeepsMeaning == last.op = "advance" => angle = b
+\* the tracker itself (not only the last reported angle) belongs to the current pose
+TrackerKeepsMeaning == nfull * N + ((b - capPose.b) % N) = b
+\* the a posteriori evaluation reports, for every row of the leg, the accumulated rotation at that row
+RowsKeepMeaning == last.op = "postprocess" => (Len(rows) = Len(traj) /\ \A i \in 1..Len(rows) : rows[i] = traj[i])
 \* plans: segments never overshoot the run
 PlanOK == segs = <<>> \/ segs[Len(segs)].upto <= NSteps
 =============================================================================
